@@ -20,6 +20,7 @@ type staticCase struct {
 	Pairs    [][2]int // point-to-point queries (DijkstraFromTo, AStar)
 	HF       int      // index of the factor of the consistent heuristic
 	HSeed    uint64   // selects the per-node factors of the inconsistent heuristic
+	View     int      // what the value handed to the routines implements (viewFull, viewWeightOnly, viewPlain)
 }
 
 const (
@@ -34,7 +35,8 @@ var hFactors = []float64{0, 0.25, 0.5, 1}
 type ctx struct {
 	c      *staticCase
 	m      *model
-	g      weightedGraph
+	cg     weightedGraph // the container holding the real weights
+	g      graph.Graph   // the view of it that the routines get
 	D      [][]float64
 	negAny bool   // a negative cycle exists somewhere
 	negRow []bool // a negative cycle is reachable from the source
@@ -63,9 +65,16 @@ type setRes struct {
 }
 
 func newCtx(c *staticCase) *ctx {
-	m := newModel(c.nodeIDs(), c.allArcs(), c.Undir)
+	arcs := c.allArcs()
+	real := newModel(c.nodeIDs(), arcs, c.Undir)
+	m := real
+	if c.View == viewPlain {
+		// the routines cannot see the weights: UniformCost is documented
+		m = newModel(c.nodeIDs(), unitArcs(arcs), c.Undir)
+	}
 	k := &ctx{c: c, m: m, col: map[int][]float64{}, sets: map[[2]int]setRes{}}
-	k.g = buildGraph(c.Kind, m)
+	k.cg = buildGraph(c.Kind, real)
+	k.g = viewOf(c.View, k.cg, c.Undir)
 	k.D = m.allPairs()
 	k.negRow = make([]bool, m.n+1)
 	for s := 0; s < m.n; s++ {
@@ -253,15 +262,31 @@ func (k *ctx) where(name string, s, t int) string {
 	return fmt.Sprintf("%s from %d to %d", name, k.m.id(s), k.m.id(t))
 }
 
-// checkShortest checks a Shortest tree rooted at s. skipSelf suppresses the
-// s==t assertion (absent source; sink source seen through an implicit graph).
-func (k *ctx) checkShortest(name string, sp path.Shortest, s int, skipSelf bool) *vk.Failure {
+// How the query for the source itself is treated.
+const (
+	selfNormal       = iota
+	selfAbsent       // the source is not in the graph: the answer is not asserted, but it must not fault
+	selfImplicitSink // a source without successors seen through a traverse.Graph: findings get their own key
+)
+
+// checkShortest checks a Shortest tree rooted at s.
+func (k *ctx) checkShortest(name string, sp path.Shortest, s int, self int) *vk.Failure {
 	m := k.m
 	if sp.From() == nil || sp.From().ID() != m.id(s) {
 		return vk.Failf(name+"/from", "From() does not return the source %d", m.id(s))
 	}
 	for t := 0; t <= m.n; t++ {
-		if t == s && skipSelf {
+		if t == s && self != selfNormal {
+			sid := m.id(s)
+			var p []graph.Node
+			var w, wt float64
+			r := vk.Call(func() { wt = sp.WeightTo(sid); p, w = sp.To(sid) })
+			switch {
+			case r.Outcome != vk.Returned:
+				k.softFail(vk.Failf("source-self-query/panic", "%s: Shortest.WeightTo/To(source) ended in %v: %s", k.where(name, s, t), r.Outcome, r.Text))
+			case self == selfImplicitSink && !(wt == 0 && w == 0 && len(p) == 1 && p[0] != nil && p[0].ID() == sid):
+				k.softFail(vk.Failf("implicit-sink-self/no-trivial-path", "%s: the source has no successors: WeightTo=%v To=%s,%v; want the one-node path of weight 0", k.where(name, s, t), wt, showPath(p), w))
+			}
 			continue
 		}
 		want := inf
@@ -290,13 +315,35 @@ func (k *ctx) checkShortest(name string, sp path.Shortest, s int, skipSelf bool)
 }
 
 // checkAlts checks a ShortestAlts tree rooted at s.
-func (k *ctx) checkAlts(name string, sp path.ShortestAlts, s int, skipSelf bool) *vk.Failure {
+func (k *ctx) checkAlts(name string, sp path.ShortestAlts, s int, self int) *vk.Failure {
 	m := k.m
 	if sp.From() == nil || sp.From().ID() != m.id(s) {
 		return vk.Failf(name+"/from", "From() does not return the source %d", m.id(s))
 	}
 	for t := 0; t <= m.n; t++ {
-		if t == s && skipSelf {
+		if t == s && self != selfNormal {
+			sid := m.id(s)
+			var p []graph.Node
+			var ps, fs [][]graph.Node
+			var w, wt, aw float64
+			r := vk.Call(func() { wt = sp.WeightTo(sid); p, w, _ = sp.To(sid) })
+			if r.Outcome == vk.Returned {
+				r = vk.Call(func() {
+					ps, aw = sp.AllTo(sid)
+					sp.AllToFunc(sid, func(p []graph.Node) { fs = append(fs, append([]graph.Node(nil), p...)) })
+				})
+				if r.Outcome != vk.Returned && self == selfAbsent {
+					k.softFail(vk.Failf("allto-absent-source-self/panic", "%s: the source is not in the graph: ShortestAlts.AllTo/AllToFunc(source) ended in %v: %s", k.where(name, s, t), r.Outcome, r.Text))
+					continue
+				}
+			}
+			one := func(p []graph.Node) bool { return len(p) == 1 && p[0] != nil && p[0].ID() == sid }
+			switch {
+			case r.Outcome != vk.Returned:
+				k.softFail(vk.Failf("source-self-query/panic", "%s: ShortestAlts queries for the source ended in %v: %s", k.where(name, s, t), r.Outcome, r.Text))
+			case self == selfImplicitSink && !(wt == 0 && w == 0 && one(p) && aw == 0 && len(ps) == 1 && one(ps[0]) && len(fs) == 1 && one(fs[0])):
+				k.softFail(vk.Failf("implicit-sink-self/no-trivial-path", "%s: the source has no successors: WeightTo=%v To=%s,%v AllTo=%d paths,%v; want the one-node path of weight 0", k.where(name, s, t), wt, showPath(p), w, len(ps), aw))
+			}
 			continue
 		}
 		want := inf
@@ -578,12 +625,16 @@ func checkStatic(c staticCase) *vk.Failure {
 			}
 			var tg traverse.Graph = k.g
 			sfx := ""
-			skipSelf := s == n
+			self := selfNormal
+			if s == n {
+				self = selfAbsent
+			}
 			if imp == 1 {
-				tg = implicitGraph{k.g}
+				tg = implicitOf(c.View, k.cg)
 				sfx = "-implicit"
-				// a source without successors is indistinguishable from an absent one
-				skipSelf = skipSelf || len(m.out[s]) == 0
+				if s < n && len(m.out[s]) == 0 {
+					self = selfImplicitSink
+				}
 			}
 			src := k.node(s)
 			negArc := k.negReachable(s)
@@ -594,7 +645,7 @@ func checkStatic(c staticCase) *vk.Failure {
 				return f
 			}
 			if ret {
-				if f := k.checkShortest("dijkstra-from"+sfx, sp, s, skipSelf); f != nil {
+				if f := k.checkShortest("dijkstra-from"+sfx, sp, s, self); f != nil {
 					return f
 				}
 			}
@@ -604,7 +655,7 @@ func checkStatic(c staticCase) *vk.Failure {
 				return f
 			}
 			if ret {
-				if f := k.checkAlts("dijkstra-all-from"+sfx, sa, s, skipSelf); f != nil {
+				if f := k.checkAlts("dijkstra-all-from"+sfx, sa, s, self); f != nil {
 					return f
 				}
 			}
@@ -614,7 +665,7 @@ func checkStatic(c staticCase) *vk.Failure {
 				return vk.Failf("bellman-ford-from"+sfx+"/ok", "BellmanFordFrom(%d) ok=%v, negative cycle reachable from the source: %v", m.id(s), ok, k.negRow[s])
 			}
 			if ok {
-				if f := k.checkShortest("bellman-ford-from"+sfx, bf, s, skipSelf); f != nil {
+				if f := k.checkShortest("bellman-ford-from"+sfx, bf, s, self); f != nil {
 					return f
 				}
 			} else if f := k.checkNegShortest("bellman-ford-from"+sfx, bf, s); f != nil {
@@ -625,7 +676,7 @@ func checkStatic(c staticCase) *vk.Failure {
 				return vk.Failf("bellman-ford-all-from"+sfx+"/ok", "BellmanFordAllFrom(%d) ok=%v, negative cycle reachable from the source: %v", m.id(s), ok, k.negRow[s])
 			}
 			if ok {
-				if f := k.checkAlts("bellman-ford-all-from"+sfx, bfa, s, skipSelf); f != nil {
+				if f := k.checkAlts("bellman-ford-all-from"+sfx, bfa, s, self); f != nil {
 					return f
 				}
 			} else if f := k.checkNegAlts("bellman-ford-all-from"+sfx, bfa, s); f != nil {
@@ -656,7 +707,7 @@ func checkStatic(c staticCase) *vk.Failure {
 			var tg traverse.Graph = k.g
 			sfx := ""
 			if imp == 1 {
-				tg = implicitGraph{k.g}
+				tg = implicitOf(c.View, k.cg)
 				sfx = "-implicit"
 				if s == t && len(m.out[s]) == 0 {
 					continue // sink source seen through an implicit graph: indistinguishable from absent
